@@ -363,6 +363,24 @@ def run(ctx):
            "`load PATH` reads and parses the file, compiles it and loads the result (in this order)", tlb.loc(),
            "calls: %s" % [c.rsplit("::", 2)[-2:] for c in tcalls if c in need])
 
+    # `load PATH` hands the file's text to the assembler's parser: whatever the text is, the parser answers with a program or
+    # an error value (which becomes the notification) and does not take the session down - the no-panic clauses of the parser
+    # rule C03 (consumer sites, numeric conversions, the construction of the error message), reported here as load/*.
+    # (What translating and loading an *accepted* file can do is C06's subject; its known findings are reachable through
+    # `load` as well and are listed there, not repeated here.)
+    from . import C03
+    orig_ob, orig_assume, orig_sample, orig_note, orig_floor = chk.ob, chk.assume, chk.sample, chk.note, chk.floor
+    keep_ = ("site/", "lexical/", "error-path/", "consumers-analysable")
+    chk.ob = lambda key, *a, **k: orig_ob(key, *a, **k) if str(key).startswith(keep_) else None
+    chk.assume = chk.sample = chk.note = lambda *a, **k: None
+    outer_prefix = getattr(chk, "prefix", "")
+    chk.prefix = outer_prefix + "load/"
+    try:
+        C03.run(ctx)
+    finally:
+        chk.prefix = outer_prefix
+        chk.ob, chk.assume, chk.sample, chk.note = orig_ob, orig_assume, orig_sample, orig_note
+
     # ---- keys ---------------------------------------------------------------------------
     he = p.need_body(TUI + "::handle_event")
     kt = p.need_type("crossterm::event::KeyEvent")
